@@ -44,6 +44,20 @@ fn small_values(t: &IntTy) -> Vec<u128>
 		v.push(t.mask());
 		v.push(t.min_magnitude());
 	}
+	// Types wider than a machine word: the literal is built from 64-bit words, so the values at
+	// the edges of one word (2^63 - 1, 2^63, 2^64 - 1, 2^64) and their negations are boundary
+	// values of the lowering, in both tiers.
+	if t.bits > 64
+	{
+		for x in [(1u128 << 63) - 1, 1u128 << 63, (1u128 << 64) - 1, 1u128 << 64]
+		{
+			v.push(x);
+			if t.signed
+			{
+				v.push(t.neg(x));
+			}
+		}
+	}
 	v
 }
 
